@@ -198,3 +198,174 @@ Proof.
   destruct (add_wallet_inputs_spec _ _ _ _ _ H) as (H1 & H2 & H3 & H4).
   repeat split; auto. intros Hs. apply no_need_covers_budget. auto.
 Qed.
+
+(* ------------------------------------------------------------------ *)
+(* composition sweeper -> input set -> publisher -> fee function:       *)
+(* where the starting fee rate of a (retried) sweep comes from           *)
+
+(* a starting rate stored on a sweeper input is acceptable when it is absent,
+   the "no tx existed" marker 0, or at least the relay floor *)
+Definition start_val_ok (relay : Z) (o : option Z) : Prop :=
+  match o with None => True | Some s => s = 0 \/ relay <= s end.
+
+Lemma set_start_fold : forall l mx so,
+  (so = None /\ mx = 0 \/ so = Some mx /\ 0 < mx) ->
+  let r := fold_left set_start_step l (mx, so) in
+  (snd r = None /\ fst r = 0 \/ snd r = Some (fst r) /\ 0 < fst r) /\
+  mx <= fst r /\
+  (forall s, In (Some s) l -> s <= fst r) /\
+  (fst r = mx \/ In (Some (fst r)) l).
+Proof.
+  induction l as [|o l IH]; intros mx so Hacc; cbn [fold_left].
+  - cbn. split; [exact Hacc|]. split; [lia|]. split; [intros s []|]. left; reflexivity.
+  - set (acc' := set_start_step (mx, so) o).
+    assert (Hstep : (snd acc' = None /\ fst acc' = 0 \/ snd acc' = Some (fst acc') /\ 0 < fst acc') /\
+                    mx <= fst acc' /\
+                    (forall s, o = Some s -> s <= fst acc') /\
+                    (fst acc' = mx \/ o = Some (fst acc'))).
+    { subst acc'. unfold set_start_step. cbn [fst snd].
+      destruct o as [r|]; cbn [fst snd].
+      - destruct (mx <? r) eqn:E; cbn [fst snd].
+        + apply Z.ltb_lt in E.
+          split; [right; split; [reflexivity|lia]|].
+          split; [lia|].
+          split; [intros s Hs; inversion Hs; lia|].
+          right; reflexivity.
+        + apply Z.ltb_ge in E.
+          split; [exact Hacc|].
+          split; [lia|].
+          split; [intros s Hs; inversion Hs; lia|].
+          left; reflexivity.
+      - assert (E : (mx <? 0) = false) by (apply Z.ltb_ge; lia).
+        rewrite E. cbn [fst snd].
+        split; [exact Hacc|].
+        split; [lia|].
+        split; [intros s Hs; discriminate|].
+        left; reflexivity. }
+    destruct Hstep as (Ha & Hle & Ho & Hin).
+    destruct acc' as [mx' so'] eqn:Eacc. cbn [fst snd] in *.
+    specialize (IH mx' so' Ha). cbn zeta in IH.
+    destruct IH as (I1 & I2 & I3 & I4).
+    split; [exact I1|].
+    split; [lia|].
+    split.
+    + intros s [Hs|Hs]; [specialize (Ho s Hs); lia | auto].
+    + destruct I4 as [I4|I4].
+      * destruct Hin as [Hin|Hin]; [left; lia | right; left; rewrite I4; exact Hin].
+      * right. right. exact I4.
+Qed.
+
+(* BudgetInputSet.StartingFeeRate: the largest POSITIVE stored rate, None iff
+   there is none *)
+Lemma set_start_spec : forall l,
+  match set_starting_fee_rate l with
+  | None => forall s, In (Some s) l -> s <= 0
+  | Some m => 0 < m /\ In (Some m) l /\ forall s, In (Some s) l -> s <= m
+  end.
+Proof.
+  intros l. unfold set_starting_fee_rate.
+  assert (H0 : @None Z = None /\ 0 = 0 \/ None = Some 0 /\ 0 < 0) by (left; auto).
+  pose proof (set_start_fold l 0 None H0) as H. cbn zeta in H.
+  destruct (fold_left set_start_step l (0, None)) as [mx so]. cbn [fst snd] in *.
+  destruct H as ([(Hs & Hm)|(Hs & Hm)] & _ & Hall & Hin); subst so.
+  - intros s Hs. specialize (Hall s Hs). lia.
+  - repeat split; auto. destruct Hin as [Hin|Hin]; [lia | exact Hin].
+Qed.
+
+Lemma set_start_val_ok : forall relay l,
+  Forall (start_val_ok relay) l ->
+  match set_starting_fee_rate l with None => True | Some m => 0 < m /\ relay <= m end.
+Proof.
+  intros relay l Hl. pose proof (set_start_spec l) as H.
+  destruct (set_starting_fee_rate l) as [m|]; auto.
+  destruct H as (Hpos & Hin & _). split; auto.
+  rewrite Forall_forall in Hl. specialize (Hl _ Hin). cbn in Hl. lia.
+Qed.
+
+(* the composed start: a fee function built from the input set's starting rate
+   starts - and stays - at or above the relay floor (when the floor is not above
+   the ceiling), and what a failed attempt feeds back to the inputs is again an
+   acceptable stored rate: the invariant of the retry chain *)
+Lemma c18_retry_start_floor : forall relay l maxr conf ans f0,
+  Forall (start_val_ok relay) l ->
+  0 <= maxr <= RMAX -> 0 <= conf < WMAX -> 0 <= relay <= maxr ->
+  new_ff64 maxr conf relay ans (set_starting_fee_rate l) = Ok f0 ->
+  relay <= ff_cur f0 <= maxr /\
+  (forall ops, relay <= ff_cur (frun64 f0 ops) <= maxr) /\
+  (forall ops, start_val_ok relay (retry_start (ff_cur (frun64 f0 ops)))) /\
+  start_val_ok relay (retry_start 0).
+Proof.
+  intros relay l maxr conf ans f0 Hl Hm Hc Hr H.
+  pose proof (set_start_val_ok relay l Hl) as Hso.
+  set (so := set_starting_fee_rate l) in *.
+  assert (Hs : start_ok relay so) by (destruct so as [m|]; cbn; lia).
+  assert (Hp : ff_premises maxr conf relay so) by (unfold ff_premises; auto).
+  destruct (new_ff_inv _ _ Hok _ _ _ _ _ _ Hm Hc Hs H) as (Hi & He & _ & Hle1 & Hgt1).
+  assert (H0 : relay <= ff_cur f0 <= maxr).
+  { destruct Hi as (_ & Hcur & _). split; [|lia].
+    destruct (Z_le_gt_dec conf 1) as [Hc1|Hc1].
+    - rewrite (Hle1 Hc1). lia.
+    - assert (Hc2 : 1 < conf) by lia. destruct (Hgt1 Hc2) as (_ & Hst).
+      destruct so as [m|]; lia. }
+  assert (Hall : forall ops, relay <= ff_cur (frun64 f0 ops) <= maxr).
+  { intros ops. split.
+    - destruct (c18_monotone _ _ _ _ _ _ Hp H) as (_ & Hmono & _).
+      specialize (Hmono [] ops). cbn [app] in Hmono. cbn in Hmono. lia.
+    - apply (c18_cap _ _ _ _ _ _ ops Hp H). }
+  repeat split; try apply H0; try apply Hall.
+  - intros ops. cbn. right. apply Hall.
+  - cbn. left. reflexivity.
+Qed.
+
+(* retry monotonicity, the provable clause: as long as the last failure of
+   (at least) one input of the retried set carried a fee rate r > 0 - i.e. no
+   failure-before-a-tx intervened and wiped it - the next fee function starts,
+   and stays, at or above min(r, new ceiling) *)
+Lemma c18_retry_monotone : forall l stored r maxr conf relay ans f,
+  In (mark_publish_failed stored (failed_result_rate (FailAtRate r))) l -> 0 < r ->
+  0 <= maxr <= RMAX -> 0 <= conf < WMAX ->
+  new_ff64 maxr conf relay ans (set_starting_fee_rate l) = Ok f ->
+  Z.min r maxr <= ff_cur f /\ (forall ops, Z.min r maxr <= ff_cur (frun64 f ops)).
+Proof.
+  intros l stored r maxr conf relay ans f Hin Hr Hm Hc H.
+  unfold mark_publish_failed, retry_start, failed_result_rate in Hin.
+  pose proof (set_start_spec l) as Hspec.
+  destruct (set_starting_fee_rate l) as [m|] eqn:Em.
+  - destruct Hspec as (Hpos & _ & Hmax). specialize (Hmax r Hin).
+    assert (Hs : start_ok relay (Some m)) by (cbn; lia).
+    assert (Hp : ff_premises maxr conf relay (Some m)) by (unfold ff_premises; auto).
+    destruct (new_ff_inv _ _ Hok _ _ _ _ _ _ Hm Hc Hs H) as (Hi & He & _ & Hle1 & Hgt1).
+    assert (H0 : Z.min r maxr <= ff_cur f).
+    { destruct (Z_le_gt_dec conf 1) as [Hc1|Hc1].
+      - rewrite (Hle1 Hc1). lia.
+      - assert (Hc2 : 1 < conf) by lia. destruct (Hgt1 Hc2) as (_ & Hst). lia. }
+    split; [exact H0|]. intros ops.
+    destruct (c18_monotone _ _ _ _ _ _ Hp H) as (_ & Hmono & _).
+    specialize (Hmono [] ops). cbn [app] in Hmono. cbn in Hmono. lia.
+  - specialize (Hspec r Hin). lia.
+Qed.
+
+(* ... and the clause that is FALSE of the code that exists (finding C18-F2):
+   ceiling 1002, relay 253, estimate 1000, deadline 21 blocks away.  The fee
+   function reaches 1002 at conf target 6 (rounding); the wallet refuses that tx:
+   TxFailed carries 1002 and is stored.  The retry at conf target 5 has start ==
+   end: ErrZeroFeeRateDelta before a tx exists, whose TxFailed carries 0 and
+   OVERWRITES the stored 1002.  The third attempt (estimate now 300) restarts at
+   300 < 1002 (1001 had been published successfully at conf target 16). *)
+Lemma c18_retry_monotone_refuted :
+  exists maxr relay conf1 ans1 f0 ops conf2 conf3 ans3 f2,
+    new_ff64 maxr conf1 relay ans1 (set_starting_fee_rate [None]) = Ok f0 /\
+    let r1 := ff_cur (frun64 f0 ops) in
+    let stored1 := mark_publish_failed None (failed_result_rate (FailAtRate r1)) in
+    new_ff64 maxr conf2 relay ans1 (set_starting_fee_rate [stored1]) = Err ErrZeroFeeRateDelta /\
+    let stored2 := mark_publish_failed stored1 (failed_result_rate FailNoTx) in
+    new_ff64 maxr conf3 relay ans3 (set_starting_fee_rate [stored2]) = Ok f2 /\
+    0 < r1 <= maxr /\ relay <= ff_cur f2 /\ ff_cur f2 < r1 /\ ff_cur f2 < Z.min r1 maxr.
+Proof.
+  exists 1002, 253, 21, (EstOk 1000).
+  eexists. exists [FConf 20; FConf 16; FConf 6], 5, 4, (EstOk 300). eexists.
+  split; [vm_compute; reflexivity|].
+  split; [vm_compute; reflexivity|].
+  split; [vm_compute; reflexivity|].
+  vm_compute. repeat split; discriminate.
+Qed.
